@@ -390,6 +390,26 @@ func TestC04(t *testing.T) {
 							ev.Violate("legacy-update-refused:"+style, map[string]interface{}{"err": fmt.Sprint(lo.Err), "panic": lo.Panic})
 						}
 					}
+					// the signature of the request that was just accepted, attached to a later request:
+					// a newer nonce, the same or other parameters
+					for k, reuse := range [][]interface{}{args, ep.Args(r, identity), ep.Args(r, identity)} {
+						n3 := w.NextNonce(identity)
+						before := w.Digest(universe, accounts)
+						out := guardedCall(w.Local, ep.Method, append([]interface{}{refSig, identity, n3}, reuse...)...)
+						after := w.Digest(universe, accounts)
+						ev.Case(fmt.Sprintf("%s/%s/accepted-signature-reused-%d", ep.Method, style, k), true)
+						ev.Count("alterations:accepted-signature-reused", 1)
+						detail := map[string]interface{}{"endpoint": ep.Method, "style": style, "driver": driver, "alteration": "signature of an accepted request reused with a newer nonce", "same_parameters": k == 0, "err": fmt.Sprint(out.Err), "panic": out.Panic}
+						switch {
+						case out.Panic != "":
+							ev.Violate(fmt.Sprintf("panic:%s:%s:accepted-signature-reused", ep.Method, style), detail)
+						case !out.Verify:
+							ev.Violate(fmt.Sprintf("altered-request-not-refused:%s:%s:accepted-signature-reused", ep.Method, style), detail)
+						case before != after:
+							detail["before"], detail["after"] = before, after
+							ev.Violate(fmt.Sprintf("refused-request-had-effect:%s:%s:accepted-signature-reused", ep.Method, style), detail)
+						}
+					}
 					// alterations
 					for _, alt := range buildAlterations(r, key, other, ep.Method, identity, w.NextNonce(identity), ep.Args(r, identity)) {
 						before := w.Digest(universe, accounts)
